@@ -70,6 +70,8 @@ IMPORT_STYLES = [
     ('from pkgk.sub import dpkg', 'dpkg.dpf(8)'),
     ('import os.path', 'os.path.basename("a/b")'),
     ('import json as js', 'js.dumps([1])'),
+    ('from os import getcwd', 'bool(getcwd())'),            # callables implemented in C, imported by name
+    ('from math import sqrt as root', 'root(4.0)'),
 ]
 FUTURES = ['from __future__ import annotations', 'from __future__ import division', 'from __future__ import generator_stop']
 
